@@ -738,3 +738,289 @@ Proof.
       unfold RI; rewrite EPP; refine (conj EP (conj D1 (conj _ (fun _ => conj eq_refl D2)))). discriminate.
   - discriminate.
 Qed.
+
+Lemma core0_RI pol : RI pol (prm0 pol) core0.
+Proof.
+  refine (conj eq_refl (conj heap0_ok (conj _ (fun _ => conj eq_refl eq_refl)))). cbn. discriminate.
+Qed.
+
+Lemma run_RI pol : forall l p c, RI pol p c ->
+  RI pol (fst (snd (run_with gstep pol p c l))) (snd (snd (run_with gstep pol p c l))).
+Proof.
+  induction l as [|o l IH]; intros p c R; cbn [run_with]; [exact R|].
+  pose proof (gstep_RI pol p c o R) as R1. cbn zeta in R1.
+  destruct (gstep (if wf_op c o then prm_of pol p o else p) c o) as [c1 ob] eqn:E. cbn [fst] in R1.
+  specialize (IH _ _ R1).
+  destruct (run_with gstep pol (if wf_op c o then prm_of pol p o else p) c1 l) as [obs r]. exact IH.
+Qed.
+
+(* histories that respect the contract are executed identically with and without the contract guard *)
+Lemma contract_ok_same pol : forall l p c, contract_ok_from pol p c l = true ->
+  run_with ustep pol p c l = run_with gstep pol p c l.
+Proof.
+  induction l as [|o l IH]; intros p c H; cbn [run_with contract_ok_from] in *; [reflexivity|].
+  apply andb_prop in H. destruct H as [H1 H2].
+  set (p1 := if wf_op c o then prm_of pol p o else p) in *.
+  assert (E : ustep p1 c o = gstep p1 c o).
+  { unfold ustep, gstep. destruct (wf_op c o); cbn [negb orb andb] in *; [rewrite H1; reflexivity|reflexivity]. }
+  rewrite <- E. destruct (ustep p1 c o) as [c1 ob]. cbn [fst] in H2. rewrite (IH _ _ H2). reflexivity.
+Qed.
+
+Definition contract_free (pol : policy) : bool := match pol with PDef | PMts | PStk => true | _ => false end.
+
+Lemma contract_free_ok pol : contract_free pol = true -> forall l p c, p_pol p = pol -> contract_ok_from pol p c l = true.
+Proof.
+  intros CF. induction l as [|o l IH]; intros p c EP; cbn [contract_ok_from]; [reflexivity|].
+  assert (EP1 : p_pol (if wf_op c o then prm_of pol p o else p) = pol).
+  { destruct (wf_op c o); [|exact EP]. destruct o; cbn [prm_of p_pol]; auto. }
+  rewrite (IH _ _ EP1), andb_true_r.
+  assert (contract (if wf_op c o then prm_of pol p o else p) c o = true) as ->; [|apply orb_true_r].
+  unfold contract. rewrite EP1. destruct o; auto; destruct pol; auto; discriminate.
+Qed.
+
+Definition final_u (pol : policy) (l : list op) : core := snd (snd (run_u pol l)).
+Definition final_p (pol : policy) (l : list op) : prm := fst (snd (run_u pol l)).
+
+Lemma final_RI pol l : contract_ok pol l = true -> RI pol (final_p pol l) (final_u pol l).
+Proof.
+  intros H. unfold final_p, final_u, run_u. unfold contract_ok in H. rewrite (contract_ok_same pol l _ _ H).
+  apply run_RI, core0_RI.
+Qed.
+
+(* C19 exclusive: simultaneously live frames never share a block *)
+Lemma exclusive pol l i j fi fj : contract_ok pol l = true ->
+  fget (frs (final_u pol l)) i = Some fi -> fget (frs (final_u pol l)) j = Some fj -> i <> j ->
+  f_blk fi <> f_blk fj.
+Proof.
+  intros H Gi Gj N. destruct (final_RI pol l H) as (_ & _ & UP & DN).
+  destruct (c_up (final_u pol l)) eqn:U.
+  - exact (blocks_distinct _ _ _ _ _ (i_blocks _ _ _ _ _ (UP eq_refl)) Gi Gj N).
+  - destruct (DN eq_refl) as [E _]. rewrite E in Gi. discriminate.
+Qed.
+
+(* C19 size + validity: the block of a live frame is allocated (or the caller's own area), and from the frame's
+   address it has room for the request, the extra object and the policy's trailer *)
+Lemma valid_sized pol l i f : contract_ok pol l = true -> fget (frs (final_u pol l)) i = Some f ->
+  0 < f_n f /\ f_n f + trailer pol <= f_room f /\
+  match f_blk f with
+  | BHeap b => In (b, f_room f) (h_live (hp (final_u pol l)))
+  | BOwn _ => pol = PStk \/ pol = PPlc
+  | BNull => False
+  end.
+Proof.
+  intros H G. destruct (final_RI pol l H) as (EP & _ & UP & DN).
+  destruct (c_up (final_u pol l)) eqn:U.
+  - pose proof (i_frames _ _ _ _ _ (UP eq_refl) _ _ (fget_In _ _ _ G)) as (F1 & F2 & F3 & V & _).
+    rewrite EP in *. split; [exact F1|]. split; [lia|].
+    destruct (f_blk f); auto. destruct pol; auto; contradiction.
+  - destruct (DN eq_refl) as [E _]. rewrite E in G. discriminate.
+Qed.
+
+(* C19 fallback freed exactly once: nothing is ever deleted that is not a live block (no double free), the live heap
+   blocks are exactly the storage's own block plus one per live frame that owns a heap block, and once the storage
+   is destroyed nothing is left: every allocation was released exactly once *)
+Lemma freed_once pol l : contract_ok pol l = true ->
+  let c := final_u pol l in
+  h_bad (hp c) = 0 /\ h_allocs (hp c) - h_frees (hp c) = zlen (h_live (hp c)) /\
+  (c_up c = true -> zlen (h_live (hp c)) = nsown pol (st c) + sumw (owns pol) (frs c)) /\
+  (c_up c = false -> h_live (hp c) = [] /\ h_allocs (hp c) = h_frees (hp c)).
+Proof.
+  intros H c. destruct (final_RI pol l H) as (EP & HK & UP & DN). fold c in HK, UP, DN.
+  refine (conj (hk_bad _ HK) (conj (hk_cnt _ HK) (conj _ _))).
+  - intros U. rewrite <- EP. exact (i_cnt _ _ _ _ _ (UP U)).
+  - intros U. destruct (DN U) as [_ E]. split; [exact E|]. pose proof (hk_cnt _ HK) as C. rewrite E in C.
+    unfold zlen in C. cbn [length] in C. lia.
+Qed.
+
+(* ====================================================================================================
+   reusable_storage_mtsafe under every schedule of any number of threads *)
+Definition wonw (t : thread) : Z := match t_won t with Some _ => 1 | None => 0 end.
+Fixpoint nwon (l : list thread) : Z := match l with [] => 0 | t :: r => wonw t + nwon r end.
+Arguments nwon : simpl never.
+
+Lemma wonw_nonneg t : 0 <= wonw t. Proof. unfold wonw. destruct (t_won t); lia. Qed.
+Lemma nwon_nonneg l : 0 <= nwon l.
+Proof. induction l as [|t l IH]; unfold nwon; fold nwon; [lia|]. pose proof (wonw_nonneg t). lia. Qed.
+
+Lemma nwon_set_nth l i t t' : nth_error l i = Some t -> nwon (set_nth l i t') = nwon l - wonw t + wonw t'.
+Proof.
+  revert i. induction l as [|x l IH]; intros [|i] H; cbn [nth_error set_nth] in *; try discriminate.
+  - inversion H; subst. unfold nwon; fold nwon. lia.
+  - unfold nwon; fold nwon. rewrite (IH _ H). lia.
+Qed.
+
+Lemma nwon_ge l i t : nth_error l i = Some t -> wonw t <= nwon l.
+Proof.
+  revert i. induction l as [|x l IH]; intros [|i] H; cbn [nth_error] in *; try discriminate.
+  - inversion H; subst. unfold nwon; fold nwon. pose proof (nwon_nonneg l). lia.
+  - unfold nwon; fold nwon. specialize (IH _ H). pose proof (wonw_nonneg x). lia.
+Qed.
+
+Definition act_pos (a : act) : Prop := match a with ACreate sz => 0 < sz | AFin _ => True end.
+Definition thr_pos (t : thread) : Prop :=
+  Forall act_pos (t_prog t) /\ match t_won t with Some sz => 0 < sz | None => True end.
+
+Record CInv (s : cst) : Prop := {
+  ci_inv : InvT pm (nwon (c_thr s)) (hp (c_core s)) (st (c_core s)) (frs (c_core s));
+  ci_keys : forall k, In k (keys (frs (c_core s))) -> (k < c_nfid (c_core s))%nat;
+  ci_pos : Forall thr_pos (c_thr s)
+}.
+
+Lemma Forall_set_nth {A} (P : A -> Prop) l i x : Forall P l -> P x -> Forall P (set_nth l i x).
+Proof.
+  intros H. revert i. induction H as [|y l Hy Hl IH]; intros [|i] Px; cbn [set_nth]; constructor; auto.
+Qed.
+
+Lemma Forall_nth_error {A} (P : A -> Prop) l i x : Forall P l -> nth_error l i = Some x -> P x.
+Proof. intros H E. rewrite Forall_forall in H. apply H. exact (nth_error_In _ _ E). Qed.
+
+Lemma sanitize_pos : forall l live, Forall act_pos (sanitize live l).
+Proof.
+  induction l as [|a l IH]; intros live; cbn [sanitize].
+  - induction live; cbn [repeat]; constructor; cbn; auto.
+  - destruct a as [sz|b].
+    + destruct (0 <? sz) eqn:G; [constructor; [cbn; lia|apply IH]|apply IH].
+    + destruct live; [apply IH|constructor; [exact Logic.I|apply IH]].
+Qed.
+
+Lemma cinit_CInv ops : CInv (cinit ops).
+Proof.
+  unfold cinit. assert (W : forall l, nwon (flat_map decode_thread l) = 0 /\ Forall thr_pos (flat_map decode_thread l)).
+  { induction l as [|o l [IH1 IH2]]; cbn [flat_map]; [split; [reflexivity|constructor]|].
+    unfold decode_thread at 1 3. destruct o as [|z r]; [split; assumption|].
+    destruct (Z.eq_dec z 2) as [->|N].
+    - cbn [app]. split.
+      + unfold nwon; fold nwon. unfold wonw. cbn [t_won]. lia.
+      + constructor; [|exact IH2]. split; cbn [t_prog t_won]; [apply sanitize_pos|exact Logic.I].
+    - assert ((match z with 2 => [mkTh (sanitize 0 (decode_prog r)) None [] 0 []] | _ => [] end) = []) as ->.
+      { destruct z as [|q|q]; try reflexivity. repeat (destruct q as [q|q|]; try reflexivity). congruence. }
+      cbn [app]. split; assumption. }
+  destruct (W ops) as [W1 W2]. constructor; cbn [c_core c_thr].
+  - rewrite W1. destruct (init_inv pm) as [I _]; cbn; try lia; [discriminate|exact I].
+  - cbn. intros k [].
+  - exact W2.
+Qed.
+
+Lemma tstep_CInv s i : CInv s -> CInv (fst (tstep s i)).
+Proof.
+  intros [I K P]. unfold tstep. destruct (nth_error (c_thr s) i) as [t|] eqn:ET; [|cbn [fst]; constructor; assumption].
+  pose proof (Forall_nth_error _ _ _ _ P ET) as [PP PW].
+  set (c := c_core s) in *.
+  assert (FR : ~ In (c_nfid c) (keys (frs c))) by (intros A; specialize (K _ A); lia).
+  destruct (t_won t) as [sz|] eqn:EW.
+  - (* busy_g: the winner takes or regrows the shared block *)
+    pose proof (nwon_ge _ _ _ ET) as GE. unfold wonw in GE. rewrite EW in GE.
+    assert (I1 : InvT pm ((nwon (c_thr s) - 1) + 1) (hp c) (st c) (frs c)) by (replace (nwon (c_thr s) - 1 + 1) with (nwon (c_thr s)) by lia; exact I).
+    pose proof (mts_won_inv pm (nwon (c_thr s) - 1) (hp c) (st c) (frs c) (c_nfid c) (c_nfid c) sz eq_refl ltac:(lia) I1 PW FR) as W.
+    unfold mk_frame. destruct (mts_won (hp c) (st c) sz) as [[h1 s1] g]. cbn [fst upd p_x pm].
+    constructor; unfold upd; cbn [c_core c_thr hp st frs c_nfid].
+    + rewrite (nwon_set_nth _ _ _ _ ET). unfold wonw. rewrite EW. cbn [t_won]. rewrite ?Z.add_0_r.
+      match goal with |- InvT _ ?k _ _ _ => replace k with (nwon (c_thr s) - 1) by lia end. exact W.
+    + cbn [keys map fst]. intros k [<-|A]; [lia|]. specialize (K _ A). lia.
+    + apply Forall_set_nth; [exact P|]. split; cbn [t_prog t_won]; auto.
+  - destruct (t_prog t) as [|[sz|nw] r] eqn:EPg; [cbn [fst]; constructor; assumption| |].
+    + (* busy_x *)
+      inversion PP as [|? ? PA PR]; subst. cbn [act_pos] in PA.
+      destruct (s_busy (st c)) eqn:B.
+      * pose proof (mts_lost_inv pm (nwon (c_thr s)) (hp c) (st c) (frs c) (c_nfid c) (c_nfid c) sz eq_refl I PA FR) as W.
+        unfold mk_frame. destruct (mts_lost (hp c) (st c) sz) as [[h1 s1] g]. cbn [fst upd p_x pm].
+        constructor; unfold upd; cbn [c_core c_thr hp st frs c_nfid].
+        -- rewrite (nwon_set_nth _ _ _ _ ET). unfold wonw. rewrite EW. cbn [t_won]. rewrite ?Z.add_0_r.
+           match goal with |- InvT _ ?k _ _ _ => replace k with (nwon (c_thr s)) by lia end. exact W.
+        -- cbn [keys map fst]. intros k [<-|A]; [lia|]. specialize (K _ A). lia.
+        -- apply Forall_set_nth; [exact P|]. split; cbn [t_prog t_won]; auto.
+      * destruct (mts_claim_inv pm _ _ _ _ eq_refl I B) as [Z0 I1].
+        cbn [fst upd]. constructor; unfold upd; cbn [c_core c_thr with_busy hp st frs c_nfid].
+        -- rewrite (nwon_set_nth _ _ _ _ ET). unfold wonw. rewrite EW. cbn [t_won].
+           match goal with |- InvT _ ?k _ _ _ => replace k with (1) by lia end. exact I1.
+        -- exact K.
+        -- apply Forall_set_nth; [exact P|]. split; cbn [t_prog t_won]; auto.
+    + (* busy_s *)
+      inversion PP as [|? ? PA PR]; subst.
+      assert (SKIP : CInv (upd s c i (mkTh r None (t_own t) (S (t_done t)) (t_res t ++ [[Z.of_nat i; Z.of_nat (t_done t); 0]])))).
+      { constructor; unfold upd; cbn [c_core c_thr].
+        - rewrite (nwon_set_nth _ _ _ _ ET). unfold wonw. rewrite EW. cbn [t_won].
+          match goal with |- InvT _ ?k _ _ _ => replace k with (nwon (c_thr s)) by lia end. exact I.
+        - exact K.
+        - apply Forall_set_nth; [exact P|]. split; cbn [t_prog t_won]; auto. }
+      destruct (pick nw (t_own t)) as [[slot rest]|]; [|exact SKIP].
+      destruct (fget (frs c) slot) as [f|] eqn:GF; [|exact SKIP].
+      pose proof (finish_inv pm _ _ _ _ slot f I GF) as W. unfold finish.
+      destruct (bdealloc pm (hp c) (st c) (f_blk f) (f_tr f)) as [h1 s1]. cbn [fst upd].
+      constructor; unfold upd; cbn [c_core c_thr hp st frs c_nfid].
+      * rewrite (nwon_set_nth _ _ _ _ ET). unfold wonw. rewrite EW. cbn [t_won].
+        match goal with |- InvT _ ?k _ _ _ => replace k with (nwon (c_thr s)) by lia end. exact W.
+      * intros k A. apply keys_fdel_In in A. apply K, A.
+      * apply Forall_set_nth; [exact P|]. split; cbn [t_prog t_won]; auto.
+Qed.
+
+Lemma run_sched_CInv : forall fuel s sched tr, CInv s -> CInv (fst (run_sched fuel s sched tr)).
+Proof.
+  induction fuel as [|fuel IH]; intros s sched tr C; cbn [run_sched]; [exact C|].
+  destruct (all_enabled s) as [|e en]; [exact C|].
+  set (i := nth _ _ _). pose proof (tstep_CInv s i C) as C1.
+  destruct (tstep s i) as [s1 pt]. apply IH. exact C1.
+Qed.
+
+(* every state reachable by thread steps in any order *)
+Inductive mt_reach (ops : list (list Z)) : cst -> Prop :=
+| mr_init : mt_reach ops (cinit ops)
+| mr_step s i : mt_reach ops s -> mt_reach ops (fst (tstep s i)).
+
+Lemma reach_CInv ops s : mt_reach ops s -> CInv s.
+Proof. induction 1; [apply cinit_CInv|apply tstep_CInv; assumption]. Qed.
+
+Lemma mt_exclusive ops s i j fi fj : mt_reach ops s ->
+  fget (frs (c_core s)) i = Some fi -> fget (frs (c_core s)) j = Some fj -> i <> j -> f_blk fi <> f_blk fj.
+Proof.
+  intros R. destruct (reach_CInv _ _ R) as [I _ _]. exact (blocks_distinct _ _ _ _ _ (i_blocks _ _ _ _ _ I)).
+Qed.
+
+(* the shared block: at most one holder (a live frame in it, or a thread that won _busy and has not allocated yet) *)
+Lemma mt_one_holder ops s : mt_reach ops s ->
+  nwon (c_thr s) + sumw trw (frs (c_core s)) = b2z (s_busy (st (c_core s))) /\
+  forall i f, In (i, f) (frs (c_core s)) ->
+    if f_tr f then f_blk f = optblk (s_ptr (st (c_core s)))
+    else exists b, f_blk f = BHeap b /\ s_ptr (st (c_core s)) <> Some b.
+Proof.
+  intros R. destruct (reach_CInv _ _ R) as [I _ _]. split.
+  - exact (proj2 (i_busy _ _ _ _ _ I)).
+  - intros i f A. exact (proj2 (proj2 (proj2 (proj2 (i_frames _ _ _ _ _ I _ _ A))))).
+Qed.
+
+Lemma mt_valid_sized ops s i f : mt_reach ops s -> In (i, f) (frs (c_core s)) ->
+  0 < f_n f /\ f_n f + ptr_sz <= f_room f /\ exists b, f_blk f = BHeap b /\ In (b, f_room f) (h_live (hp (c_core s))).
+Proof.
+  intros R A. destruct (reach_CInv _ _ R) as [I _ _].
+  destruct (i_frames _ _ _ _ _ I _ _ A) as (F1 & F2 & F3 & V & RR). cbn [pm p_pol trailer] in *.
+  split; [exact F1|]. split; [lia|].
+  destruct (f_blk f) as [|b|j]; try contradiction. exists b. auto.
+Qed.
+
+Lemma mt_freed_once ops s : mt_reach ops s ->
+  let h := hp (c_core s) in
+  h_bad h = 0 /\ h_allocs h - h_frees h = zlen (h_live h) /\
+  zlen (h_live h) = nsown PMts (st (c_core s)) + sumw (owns PMts) (frs (c_core s)) /\
+  (frs (c_core s) = [] -> let h1 := hp (destroy pm (c_core s)) in h_live h1 = [] /\ h_allocs h1 = h_frees h1 /\ h_bad h1 = 0).
+Proof.
+  intros R h. destruct (reach_CInv _ _ R) as [I _ _]. pose proof (i_heap _ _ _ _ _ I) as HK. fold h in HK.
+  pose proof (i_cnt _ _ _ _ _ I) as C. cbn [pm p_pol] in C. fold h in C.
+  refine (conj (hk_bad _ HK) (conj (hk_cnt _ HK) (conj C _))).
+  intros E. rewrite E, sumw_nil in C. unfold destroy. cbn [pm p_pol hp]. fold h.
+  pose proof (i_sto _ _ _ _ _ I) as S. unfold sto_ok in S. cbn [pm p_pol] in S. destruct S as [_ S].
+  destruct (destroy_heap h (s_ptr (st (c_core s))) HK) as [D1 D2].
+  - cbn [nsown] in C. lia.
+  - intros b EB. rewrite EB in S. eexists. exact S.
+  - split; [exact D2|]. pose proof (hk_cnt _ D1) as C1. rewrite D2 in C1. unfold zlen in C1. cbn [length] in C1.
+    split; [lia|exact (hk_bad _ D1)].
+Qed.
+
+Lemma mt_final_reach ops : mt_reach ops (fst (mt_final ops)).
+Proof.
+  unfold mt_final. generalize (2 * sumlen (c_thr (cinit ops)) + 2)%nat (flat_map decode_sched ops) (@nil (nat * Z)).
+  intros fuel. assert (G : forall s, mt_reach ops s -> forall sched tr, mt_reach ops (fst (run_sched fuel s sched tr))).
+  { induction fuel as [|fuel IH]; intros s R sched tr; cbn [run_sched]; [exact R|].
+    destruct (all_enabled s) as [|e en]; [exact R|]. set (i := nth _ _ _).
+    pose proof (mr_step ops s i R) as R1. destruct (tstep s i) as [s1 pt]. apply IH. exact R1. }
+  apply G. constructor.
+Qed.
